@@ -15,6 +15,9 @@ type Graph struct {
 	Root         *SNode
 	Types        map[string]*SNode
 	KeysOptional bool // applies to the root text only (added types are separate schema objects)
+	// OptTypes: the added types that were themselves created with KeysAreOptionalByDefault (only the
+	// reference analysis of C09 uses it)
+	OptTypes map[string]bool
 }
 
 type CResult struct {
@@ -298,10 +301,10 @@ func (c *composer) keyTypeAcceptsVia(name, key string, path []string) bool {
 	ruled := false
 	for _, r := range t.Rules {
 		switch r.Name {
-		case "minLength", "maxLength", "regex", "enum":
-			ruled = true
-		default:
+		case "or", "allOf", "additionalProperties", "minItems", "maxItems":
 			c.unspecified("key type with rule " + r.Name)
+		default:
+			ruled = true
 		}
 	}
 	if !ruled {
